@@ -9,7 +9,11 @@
 package c07
 
 import (
+	"encoding/binary"
 	"fmt"
+	"os"
+	"os/exec"
+	"path/filepath"
 	"reflect"
 	"runtime/debug"
 	"sort"
@@ -87,16 +91,21 @@ func (r *ref) size() int {
 // ---- state -------------------------------------------------------------------
 
 type state struct {
-	lawful   bool
-	universe []key
-	versions []hashmap.Map
-	refs     []*ref
-	prints   []uint64 // fingerprint of each version through the public API, taken at creation
-	census   []census
-	lastTag  string
-	thorough bool
-	boxed    []any // universe keys as interface values (avoids re-boxing in fingerprint)
-	events   map[string]int
+	lawful     bool
+	universe   []key
+	versions   []hashmap.Map
+	refs       []*ref
+	prints     []uint64 // fingerprint of each version through the public API, taken at creation
+	census     []census
+	lastTag    string
+	opIndex    int          // index of the op being executed (ops.txt line)
+	progress   *os.File     // the child records opIndex here before every op
+	skip       map[int]bool // ops that killed an earlier child run: reported as PANIC, not executed
+	limit      int          // ≥ 0: ops after this index are not executed
+	afterFatal bool
+	thorough   bool
+	boxed      []any // universe keys as interface values (avoids re-boxing in fingerprint)
+	events     map[string]int
 }
 
 // census of a trie: how many nodes of each kind at each depth.
@@ -347,6 +356,31 @@ func (st *state) classify(op string, k any, old, nw census, oldLen, newLen int) 
 func impl(sti any, f []string) string {
 	st := sti.(*state)
 	st.lastTag = ""
+	i := st.opIndex
+	st.opIndex++
+	if st.progress != nil {
+		var b [8]byte
+		binary.LittleEndian.PutUint64(b[:], uint64(i))
+		st.progress.WriteAt(b[:], 0)
+	}
+	if st.limit >= 0 && i > st.limit {
+		// after a fatal op nothing more is executed: one failing input is enough,
+		// and later ops would most likely kill the process again
+		st.afterFatal = true
+		return "NOT-RUN-AFTER-FATAL-OP"
+	}
+	if st.skip[i] && (f[0] == "assoc" || f[0] == "dissoc") {
+		// this op killed an earlier run of the harness with a fatal Go runtime
+		// error (stack overflow): same bookkeeping as for a panic
+		ver, err := strconv.Atoi(f[1])
+		if err == nil && ver >= 0 && ver < len(st.versions) {
+			st.versions = append(st.versions, st.versions[ver])
+			st.refs = append(st.refs, st.refs[ver].clone())
+			st.prints = append(st.prints, st.prints[ver])
+			st.census = append(st.census, st.census[ver])
+		}
+		panic("fatal Go runtime error (e.g. stack overflow from unbounded recursion) killed the harness at this op")
+	}
 	switch f[0] {
 	case "reset":
 		st.lawful = f[1] == "lawful"
@@ -513,7 +547,7 @@ func (st *state) checkAgainstRef(m hashmap.Map, r *ref) (string, string) {
 
 func oracle(sti any, f []string, out string) (string, string) {
 	st := sti.(*state)
-	if f[0] == "reset" || !st.lawful {
+	if f[0] == "reset" || !st.lawful || out == "NOT-RUN-AFTER-FATAL-OP" {
 		return "", "" // unlawful eq/hash pairs are outside the property's quantifier
 	}
 	if out == "PANIC" || out == "TIMEOUT" {
@@ -709,7 +743,7 @@ func universe(r *common.Rand) (hashes []uint32, scheme string) {
 
 func gen(c *common.Ctx, emit func(...string)) {
 	r := c.Rand
-	nh := c.Scale(500, 6000)
+	nh := c.Scale(500, 20000)
 	schemes := map[string]int{}
 	for hI := 0; hI < nh; hI++ {
 		hashes, scheme := universe(r)
@@ -860,8 +894,69 @@ func gen(c *common.Ctx, emit func(...string)) {
 	c.Extra["histories"] = nh
 }
 
+// supervise runs the harness in a child process, because a Go stack overflow
+// (unbounded recursion in collisionNode.assoc is the model's FUEL outcome) is
+// fatal and cannot be recovered in-process.  When the child dies, the op it was
+// executing is added to the skip list (reported as PANIC) and the child is rerun.
+func supervise(c *common.Ctx) error {
+	exe, err := os.Executable()
+	if err != nil {
+		return err
+	}
+	prog := filepath.Join(c.Dir, "c07-progress")
+	skip := ""
+	for attempt := 0; attempt < 3; attempt++ {
+		os.Remove(prog)
+		cmd := exec.Command(exe, os.Args[1:]...)
+		cmd.Env = append(os.Environ(), "VERIF_C07_CHILD=1", "VERIF_C07_SKIP="+skip)
+		cmd.Stdout = os.Stdout
+		var tail tailWriter
+		cmd.Stderr = &tail
+		err := cmd.Run()
+		if err == nil {
+			return nil
+		}
+		b, rerr := os.ReadFile(prog)
+		if rerr != nil || len(b) < 8 {
+			os.Stderr.Write(tail.buf)
+			return fmt.Errorf("child harness failed before the first op: %v", err)
+		}
+		i := int(binary.LittleEndian.Uint64(b))
+		fmt.Fprintf(os.Stderr, "c07: harness child died at op #%d (%v); rerunning with that op reported as PANIC\n", i, err)
+		if skip != "" {
+			skip += ","
+		}
+		skip += strconv.Itoa(i)
+	}
+	return fmt.Errorf("child harness keeps dying")
+}
+
+// tailWriter keeps the last few KB written to it.
+type tailWriter struct{ buf []byte }
+
+func (t *tailWriter) Write(p []byte) (int, error) {
+	t.buf = append(t.buf, p...)
+	if len(t.buf) > 4096 {
+		t.buf = t.buf[len(t.buf)-4096:]
+	}
+	return len(p), nil
+}
+
 func run(c *common.Ctx) error {
-	st := &state{events: map[string]int{}, thorough: c.Thorough()}
+	if os.Getenv("VERIF_C07_CHILD") == "" {
+		return supervise(c)
+	}
+	st := &state{events: map[string]int{}, thorough: c.Thorough(), skip: map[int]bool{}, limit: -1}
+	for _, x := range strings.Split(os.Getenv("VERIF_C07_SKIP"), ",") {
+		if i, err := strconv.Atoi(x); err == nil {
+			st.skip[i] = true
+			st.limit = i
+		}
+	}
+	if f, err := os.Create(filepath.Join(c.Dir, "c07-progress")); err == nil {
+		st.progress = f
+		defer f.Close()
+	}
 	c.Extra["trie_events"] = st.events
 	s := &common.Std{
 		Rule: "random operation histories (assoc/dissoc/index/observe on the latest or an earlier version) over a per-history key universe " +
@@ -879,6 +974,9 @@ func run(c *common.Ctx) error {
 			}
 			if out == "PANIC" || out == "TIMEOUT" {
 				return "crash"
+			}
+			if out == "NOT-RUN-AFTER-FATAL-OP" {
+				return "not-run-after-fatal-op"
 			}
 			if st.lastTag == "" {
 				return f[0]
